@@ -525,6 +525,16 @@ func (s *Module) AddBlock(block *block.Block) error {
 	if !block.Hash().Equals(expectedH) {
 		return fmt.Errorf("invalid block: hash mismatch: expected %s, got %s", expectedH, block.Hash().StringLE())
 	}
+	// The hash doesn't cover the witness, and the block is about to replace
+	// the header that was verified.
+	hdr, err := s.bc.GetHeader(expectedH)
+	if err != nil {
+		return fmt.Errorf("failed to get header %d: %w", block.Index, err)
+	}
+	if !bytes.Equal(hdr.Script.InvocationScript, block.Script.InvocationScript) ||
+		!bytes.Equal(hdr.Script.VerificationScript, block.Script.VerificationScript) {
+		return errors.New("invalid block: witness differs from the one of the verified header")
+	}
 	cache := s.dao.GetPrivate()
 	if err := cache.StoreAsBlock(block, nil, nil); err != nil {
 		return err
@@ -538,7 +548,7 @@ func (s *Module) AddBlock(block *block.Block) error {
 		}
 	}
 
-	_, err := cache.Persist()
+	_, err = cache.Persist()
 	if err != nil {
 		return fmt.Errorf("failed to persist results: %w", err)
 	}
